@@ -23,6 +23,14 @@
 //	                 the elimination-off run, and the innermost handler-bind /
 //	                 ignore-errors is the one that handles an error
 //
+// A fourth family ("multiform") gives the loop functions bodies of 2-3 forms
+// (directly, or inside let / progn / dotimes / a lambda called through
+// funcall or apply) in which a NON-last form ends, through any terminal
+// shape, in a recursive call on the first, second or last turn of the loop;
+// that call must run and return in every configuration (transparency on
+// value + stderr + a global activation log), and the main loop must still run
+// in constant stack.
+//
 // No expected value is written down except the index of the innermost handler
 // (computed from N).
 package c02
@@ -88,7 +96,7 @@ func checkProgram(p *pool, c Case, cfgs []string) ([]finding, progResult) {
 	for _, cfg := range allConfigs {
 		pr.baseDepth[cfg] = -1
 		if p := res[cfg].Probes; has[cfg] && len(p) > 0 {
-			pr.baseDepth[cfg] = len(p[0])
+			pr.baseDepth[cfg] = len(p[len(p)-1]) // the main loop's base case (a multiform side call probes earlier)
 		}
 	}
 	var fs []finding
@@ -194,17 +202,12 @@ func checkProgram(p *pool, c Case, cfgs []string) ([]finding, progResult) {
 
 // group is the unit of work: all iteration counts of one (shape, topology,
 // argument style, error mode).
-type group struct {
-	Family string
-	Def    string
-	Shape  []string
-	Topo   int
-	Args   string
-	Err    string
-}
+type group struct{ Case }
 
 func (g group) kase(n int) Case {
-	return Case{Family: g.Family, Def: g.Def, Shape: g.Shape, Topo: g.Topo, Args: g.Args, Err: g.Err, N: n}
+	c := g.Case
+	c.N, c.Ns, c.Oracle, c.Src = n, nil, "", ""
+	return c
 }
 
 // nrun is one iteration count and the configurations it is executed under.
@@ -230,6 +233,22 @@ var onOff = []string{cfgOn, cfgOff}
 // estimate; the profiler and plain configurations differ from "on" by one
 // deferred call / the absence of a context and are covered at depth <= 2.)
 func plan(g group, thorough bool) []nrun {
+	if g.Family == "multiform" {
+		// quick: N <= 10 (the side call needs a reused frame: 2 turns);
+		// thorough adds N=100, under {on, off} for side shapes of depth 2
+		var out []nrun
+		for _, n := range []int{0, 1, 2, 3, 10} {
+			out = append(out, nrun{n, allConfigs})
+		}
+		if thorough {
+			if len(g.Shape) <= 1 {
+				out = append(out, nrun{100, allConfigs})
+			} else {
+				out = append(out, nrun{100, onOff})
+			}
+		}
+		return out
+	}
 	d := len(g.Shape)
 	big := (g.Family == "tail" && d >= 3) || (g.Family != "tail" && d-1 >= 2)
 	var out []nrun
@@ -270,7 +289,7 @@ func checkGroup(p *pool, g group, runs []nrun, each func(Case, []string, progRes
 		}
 	}
 	// (2) constant stack: only for shapes whose call is a tail call all the way
-	if g.Family == "tail" && len(hs) >= 2 {
+	if (g.Family == "tail" || g.Family == "multiform") && len(hs) >= 2 {
 		measures := []struct {
 			name string
 			f    func(progResult) int
@@ -396,7 +415,7 @@ func (e *explorer) runGroups(groups []group) {
 			e.mu.Lock()
 			_, dup := e.sources[k]
 			e.sources[k] = struct{}{}
-			if g.Family == "tail" && c.N >= 10 && c.Err != "first" && pr.fits {
+			if (g.Family == "tail" || g.Family == "multiform") && c.N >= 10 && c.Err != "first" && pr.fits {
 				if pr.heightOff > pr.heightOn {
 					e.collapsed++
 				} else {
@@ -418,7 +437,7 @@ func (e *explorer) runGroups(groups []group) {
 			}
 			r.Outcome(g.Family + g.Def + " " + blk + " err=" + c.Err + " -> " + pr.outcomeKind)
 		})
-		if g.Family == "tail" {
+		if g.Family == "tail" || (g.Family == "multiform" && r.Thorough()) {
 			r.AddTransitions(5) // height / base-depth comparisons across N
 		}
 		if len(fs) > 0 {
@@ -477,11 +496,46 @@ func makeGroups(family string, shapes [][]string) []group {
 		for topo := 1; topo <= 3; topo++ {
 			for _, a := range argStyles {
 				for _, em := range errModes {
-					gs = append(gs, group{Family: family, Shape: s, Topo: topo, Args: a, Err: em})
+					gs = append(gs, group{Case{Family: family, Shape: s, Topo: topo, Args: a, Err: em}})
 				}
 				if family == "tail" {
 					// the same loop as labels-bound closures (error-free runs only)
-					gs = append(gs, group{Family: family, Def: "labels", Shape: s, Topo: topo, Args: a, Err: "none"})
+					gs = append(gs, group{Case{Family: family, Def: "labels", Shape: s, Topo: topo, Args: a, Err: "none"}})
+				}
+			}
+		}
+	}
+	return gs
+}
+
+// makeMultiGroups: side shapes x (container, main call) x layout x turn x
+// (topology, target) x argument styles.  The main call goes through
+// funcall/apply only with the plain body container (defun and labels).
+func makeMultiGroups(shapes [][]string, args []string) []group {
+	type cm struct{ def, container, main string }
+	var cms []cm
+	for _, m := range mainCalls {
+		cms = append(cms, cm{"", "body", m}, cm{"labels", "body", m})
+	}
+	for _, c := range containers[1:] {
+		cms = append(cms, cm{"", c, "direct"})
+	}
+	type tt struct {
+		topo   int
+		target string
+	}
+	tts := []tt{{1, "self"}, {2, "self"}, {2, "next"}}
+	var gs []group
+	for _, s := range shapes {
+		for _, x := range cms {
+			for _, lay := range layouts {
+				for _, tu := range turns {
+					for _, t := range tts {
+						for _, a := range args {
+							gs = append(gs, group{Case{Family: "multiform", Def: x.def, Shape: s, Topo: t.topo, Args: a, Err: "none",
+								Container: x.container, Layout: lay, Turn: tu, Target: t.target, Main: x.main}})
+						}
+					}
 				}
 			}
 		}
@@ -502,10 +556,10 @@ func run(r *core.Run) {
 	// inconsistent stack; keep a broken build from flooding the output.
 	log.SetOutput(io.Discard)
 
-	tailDepth, insDepth := 2, 1
+	tailDepth, insDepth, mfDepth := 2, 1, 1
 	ns := []int{0, 1, 2, 3, 10, 100}
 	if r.Thorough() {
-		tailDepth, insDepth = 3, 2
+		tailDepth, insDepth, mfDepth = 3, 2, 2
 	}
 	e := &explorer{r: r, sources: map[[16]byte]struct{}{}, violated: map[string][][]string{},
 		subsumed: map[string]int{}, found: map[string]int{}, sampled: map[string]bool{}}
@@ -525,6 +579,12 @@ func run(r *core.Run) {
 		r.Bound("iteration_count_1000", "tail shapes of depth<=2 and blocked/transparency-only shapes on a base shape of depth<=1: all configurations, all styles and error modes; tail shapes of depth 3: accumulator style, defun, no error, configurations on+off")
 		r.Bound("iteration_count_100_big_sets", "tail shapes of depth 3 and blocked shapes on a base shape of depth 2 run N=100 under configurations on+off only (N<=10 under all four)")
 	}
+	r.Bound("multiform_side_shape_depth", mfDepth)
+	r.Bound("multiform_dimensions", map[string]any{"containers": containers, "layouts": layouts, "turn_of_side_call": turns,
+		"topology_x_side_target": []string{"self/self", "2-cycle/self", "2-cycle/next"}, "main_call": mainCalls,
+		"definition_styles": "defun and labels for the body container (each with main call direct|funcall|apply); defun + direct for the other containers",
+		"argument_styles":   "quick: acc; thorough: all three for side shapes of depth<=1, acc for depth 2",
+		"iteration_counts":  "quick: 0,1,2,3,10; thorough adds 100 (all configurations for depth<=1, on+off for depth 2)"})
 	r.Bound("configurations", allConfigs)
 	r.Rule("a program is every (shape, topology, argument style, error mode, N); non-trivial = it performs at least one recursive call (N>=1) and its elimination-off run stays inside the stack limits so that the transparency relation applies; distinct by source text")
 	r.Assume("elimination off = Runtime.Debugger set to an attached, never-enabled debugger; profiler = a lisp.Profiler that only counts spans")
@@ -533,6 +593,7 @@ func run(r *core.Run) {
 	r.Assume("not demanded: a call that merely appears in a macro's expansion is legitimately collapsed; MACRO-BODY means the call is made while the macro body runs (the macro reads its operands from globals because it cannot see the caller's lexical scope; LOAD-STRING likewise)")
 	r.Assume("thread-first/thread-last around a form that cannot absorb a threaded operand (cond, let, let*, flet, labels, dotimes, thread-*, and for thread-last everything but a call and if-then) go through an `if` whose then-branch is the operand")
 	r.Assume("NT-* positions (including `and`) are not terminal and XP-* positions put the call in a macro's expansion: only transparency is demanded for them")
+	r.Assume("multiform: the side call (a recursive call in the tail of a NON-last form of a multi-form body) is made with n=-100, so its activation goes straight to the base case, prints there and logs itself in g-log; the program's value is (list result g-log)")
 	r.Assume("one runtime per worker and configuration is reused for up to 256 programs (they only redefine globals); it is dropped when a run leaves frames behind, is cancelled or panics; every disagreement is re-confirmed 5x in fresh runtimes")
 	r.Assume("violations are reported minimal-shape-first: a shape that contains an already reported shape (same relation) as a subsequence is counted under subsumed_violations, not reported")
 
@@ -540,8 +601,9 @@ func run(r *core.Run) {
 		"tail":              byDepth(tailShapes(tailDepth)),
 		"blocked":           byDepth(insertedShapes(insDepth, blockerTokens)),
 		"transparency-only": byDepth(insertedShapes(1, nontailTokens)),
+		"multiform":         byDepth(tailShapes(mfDepth)),
 	}
-	for _, f := range []string{"tail", "blocked", "transparency-only"} {
+	for _, f := range []string{"tail", "blocked", "transparency-only", "multiform"} {
 		n := 0
 		for _, ss := range fam[f] {
 			n += len(ss)
@@ -558,6 +620,7 @@ func run(r *core.Run) {
 		{"tail", 0}, {"tail", 1}, {"tail", 2},
 		{"blocked", 1}, {"blocked", 2},
 		{"transparency-only", 1}, {"transparency-only", 2},
+		{"multiform", 0}, {"multiform", 1}, {"multiform", 2},
 		{"blocked", 3}, {"tail", 3},
 	}
 	for _, st := range steps {
@@ -570,7 +633,16 @@ func run(r *core.Run) {
 			continue
 		}
 		t0 := time.Now()
-		gs := makeGroups(st.family, shapes)
+		var gs []group
+		if st.family == "multiform" {
+			args := []string{"acc"}
+			if r.Thorough() && st.length <= 1 {
+				args = argStyles
+			}
+			gs = makeMultiGroups(shapes, args)
+		} else {
+			gs = makeGroups(st.family, shapes)
+		}
 		e.runGroups(gs)
 		fmt.Fprintf(os.Stderr, "c02: %s shapes of length %d: %d shapes, %d groups, %.1fs\n", st.family, st.length, len(shapes), len(gs), time.Since(t0).Seconds())
 	}
@@ -587,7 +659,7 @@ func replay(v core.Violation) (bool, string) {
 	if err != nil {
 		return false, err.Error()
 	}
-	g := group{Family: c.Family, Def: c.Def, Shape: c.Shape, Topo: c.Topo, Args: c.Args, Err: c.Err}
+	g := group{c}
 	var b strings.Builder
 	fmt.Fprintf(&b, "program:\n%s", Source(c))
 	for _, nr := range runsFor(c) {
